@@ -255,7 +255,8 @@ def rule_r7(facts, rep, rid="C13-R7"):
     m = cg_.mentions(ch) if ch is not None else set()
     pv = cg_.vprov(ch) if ch is not None else set()
     end_by_pattern = any(a[0] == "patpos" and str(a[1]).endswith(".end") for a in pv)        # `let InlineRange { start, end } = &link.inline_range;`
-    from_span = ("field", "inline_range") in m and (("field", "end") in m or end_by_pattern)
+    span_by_pattern = any(a[0] == "patpos" and str(a[1]).endswith(".inline_range") for a in pv) or ("field", "inline_range") in pv       # `let Link(Link { inline_range, .. }) = self else ..`
+    from_span = (("field", "inline_range") in m or span_by_pattern) and (("field", "end") in m or end_by_pattern)
     from_text = any(a[0] == "call" and a[1] and a[1].endswith("::len") for a in m) or ("field", "url") in m
     if from_span and not from_text:
         rep.ok(rid, key, "end.character = inline_range.end.character - 1 (the closing parenthesis)", loc(g, lit[0]))
